@@ -9,7 +9,7 @@ def replay(pl):
         name, long_ = name[len('native.'):], True
     try:
         d = indic.prefix_check(name)
-        if not d and (long_ or pl['obligation'].endswith('.native-bounded')):
+        if not d and (long_ or pl['obligation'].endswith('.native-bounded') or pl['obligation'].endswith('.for-every-input-length')):
             d = indic.long_prefix_check(name)
     except Exception as ex:
         return {'confirmed': False, 'error': f'{type(ex).__name__}: {ex}'}
@@ -17,5 +17,9 @@ def replay(pl):
 
 
 def replay_finding(entry):
-    d = indic.prefix_check(entry['witness']['indicator'])
+    w = entry['witness']
+    kw = {}
+    if w.get('ns'):
+        kw = dict(ns=tuple(w['ns']), ks=tuple(w['ks']), seeds=tuple(w.get('seeds', (0,))), kinds=tuple(w.get('kinds', ('random',))))
+    d = indic.prefix_check(w['indicator'], **kw)
     return {'confirmed': bool(d), 'detail': d}
